@@ -18,10 +18,19 @@ def seeded():
         rows.append("| %s | %s | %s | %s |" % (j["id"], j["breaks_property"], j["needs_to_manifest"].replace("|", "\\|"), j["result"].replace("|", "\\|")))
     return "\n".join(rows)
 
+def seeded_summary():
+    ms = [json.load(open(m)) for m in sorted(glob.glob(os.path.join(V, "seeded", "*", "meta.json")))]
+    missed = [j["id"] for j in ms if "missed first" in j["result"] or "missed at first" in j["result"] or "missed by" in j["result"] or "after adding" in j["result"]]
+    r1 = [j for j in ms if j["id"][-1] in "ab"]
+    r2 = [j for j in ms if j["id"][-1] in "cd"]
+    return ("%d kept mutants (%d from the first round, ids -a/-b; %d from the second, ids -c/-d, whose authors were told which sites "
+            "the first round had used). All are detected by the current checks. %d were missed by the check as it stood when the mutant "
+            "arrived (%s)." % (len(ms), len(r1), len(r2), len(missed), ", ".join(missed)))
+
 def main():
     p = os.path.join(V, "DESIGN.md")
     s = open(p).read()
-    for name, fn in (("findings", findings), ("seeded", seeded)):
+    for name, fn in (("findings", findings), ("seeded", seeded), ("seededsummary", seeded_summary)):
         pat = re.compile(r"(<!-- gen:%s -->\n).*?(<!-- /gen:%s -->)" % (name, name), re.S)
         if not pat.search(s):
             raise SystemExit("marker gen:%s missing" % name)
